@@ -77,7 +77,7 @@ type findingsFile struct {
 
 func env() []string {
 	e := os.Environ()
-	e = append(e, "GOFLAGS=-mod=mod", "GOPROXY=off", "GOSUMDB=off", "GOTOOLCHAIN=local", "CGO_ENABLED=1")
+	e = append(e, "GOFLAGS=-mod=mod", "GOPROXY=off", "GOSUMDB=off", "GOTOOLCHAIN=local")
 	return e
 }
 
@@ -93,7 +93,14 @@ func buildChild(race bool) (string, error) {
 	args = append(args, "./cmd/vchild")
 	cmd := exec.Command("go", args...)
 	cmd.Dir = harnessDir
-	cmd.Env = env()
+	// A cgo binary carries an extra M, which switches off the runtime's
+	// "all goroutines are asleep" detector: plain children are pure Go.
+	// The race detector needs cgo (and has no deadlock detector anyway).
+	if race {
+		cmd.Env = append(env(), "CGO_ENABLED=1")
+	} else {
+		cmd.Env = append(env(), "CGO_ENABLED=0")
+	}
 	out, err := cmd.CombinedOutput()
 	if err != nil {
 		return "", fmt.Errorf("go %s: %v\n%s", strings.Join(args, " "), err, out)
